@@ -6,6 +6,7 @@ import (
 	"fmt"
 	"sort"
 	"strings"
+	"time"
 
 	"github.com/conduitio/conduit/pkg/verifkit"
 	"github.com/conduitio/conduit/pkg/verifkit/stack"
@@ -40,6 +41,10 @@ func isDest(comp string) bool   { return len(comp) == 2 && comp[0] == 'd' && com
 // checkFlow evaluates the data-path oracles of C01-C07, C10, C12 on the event log of one execution.
 func checkFlow(p flowParams, x *verifkit.Exec) []verifkit.Violation {
 	a := &analysis{p: p, evs: x.W.Events()}
+	// Healthy environment (C06's exactness and termination clauses, C11's "while plugins respond"): no fault answer can
+	// be chosen AND every plugin/store answer arrived promptly: nothing stayed pending for 5s of virtual time or more
+	// (the engine's smallest drain time-out is 10s). Slower environments are still explored; only safety is asserted.
+	a.healthy = p.healthy() && x.W.SlowestAnswer() < 5*time.Second
 	if x.Panic != "" {
 		a.bad("harness/panic", "panic during execution: %s", x.Panic)
 	}
@@ -60,6 +65,7 @@ func checkFlow(p flowParams, x *verifkit.Exec) []verifkit.Violation {
 	dlqOK := map[recKey]bool{}
 	dlqNacked := map[recKey]bool{}
 	dlqRecvRun := map[recKey]int{}
+	dlqOpenRun := map[recKey]bool{} // a DLQ write of the record is pending or confirmed in the current run
 	filtered := map[recKey]bool{}
 	nackedInEpoch := map[recKey]bool{}
 	recvOrder := map[string]map[string][]int{}
@@ -85,6 +91,8 @@ func checkFlow(p flowParams, x *verifkit.Exec) []verifkit.Violation {
 	var statuses []string
 	lastStatusSeq := map[string]int{}
 	forceRet, stopwaitNil, stopRet := -1, -1, -1
+	statusAtForce := ""
+	runEndedBeforeForce := false
 	teardownSeq := map[string]int{}
 	for _, e := range a.evs {
 		switch {
@@ -106,6 +114,9 @@ func checkFlow(p flowParams, x *verifkit.Exec) []verifkit.Violation {
 					for i := 0; i <= q; i++ {
 						if ok, missing := handled(recKey{s, i}); !ok {
 							a.bad("C02/position-covers-unhandled", "commit #%d stores position %d for %s although record %d has not been confirmed by %s (nor dead-lettered/filtered): a crash now loses it (event #%d)", e.Idx, q, s, i, missing, e.Seq)
+							if k := (recKey{s, i}); nackedInEpoch[k] || dlqNacked[k] {
+								a.bad("C07/rejected-record-covered-by-position", "commit #%d (event #%d) stores position %d for %s: it covers record %d, which was rejected and has no confirmed DLQ write - the record is lost", e.Idx, e.Seq, q, s, i)
+							}
 							a.bad("C03/crash-loses-record", "a crash right after commit #%d (event #%d) loses record %d of %s: the stored position is %d but %s never confirmed it", e.Idx, e.Seq, i, s, q, missing)
 							break
 						}
@@ -133,6 +144,16 @@ func checkFlow(p flowParams, x *verifkit.Exec) []verifkit.Violation {
 			for k := range nackedInEpoch {
 				if k.src == e.Comp {
 					delete(nackedInEpoch, k)
+				}
+			}
+			for k := range dlqNacked {
+				if k.src == e.Comp {
+					delete(dlqNacked, k)
+				}
+			}
+			for k := range dlqOpenRun {
+				if k.src == e.Comp {
+					delete(dlqOpenRun, k)
 				}
 			}
 			// C03 / C12: the position a source is (re)opened with is never past an unhandled record (within one process
@@ -188,11 +209,13 @@ func checkFlow(p flowParams, x *verifkit.Exec) []verifkit.Violation {
 			src := parts[0]
 			k := recKey{src, e.Idx}
 			dlqRecvRun[k]++
-			if dlqRecvRun[k] > 1 {
-				a.bad("C07/dlq-twice", "record %d of %s was written to the DLQ %d times within one run (event #%d)", e.Idx, src, dlqRecvRun[k], e.Seq)
+			// exactly once = one CONFIRMED copy: a write the DLQ rejected may be retried, a confirmed or still pending one may not
+			if dlqOpenRun[k] {
+				a.bad("C07/dlq-twice", "record %d of %s was written to the DLQ again (write #%d of this run) while an earlier write was confirmed or still pending (event #%d)", e.Idx, src, dlqRecvRun[k], e.Seq)
 			}
+			dlqOpenRun[k] = true
 			seq := recvOrder["dlq"][src]
-			if len(seq) > 0 && seq[len(seq)-1] >= e.Idx {
+			if len(seq) > 0 && seq[len(seq)-1] > e.Idx { // == is a retry after a rejected write (see dlq-twice)
 				a.bad("C07/dlq-order", "DLQ received record %d of %s after %v (event #%d)", e.Idx, src, seq, e.Seq)
 			}
 			recvOrder["dlq"][src] = append(seq, e.Idx)
@@ -203,6 +226,7 @@ func checkFlow(p flowParams, x *verifkit.Exec) []verifkit.Violation {
 			dlqOK[recKey{strings.SplitN(e.Arg, "|", 2)[0], e.Idx}] = true
 		case e.Comp == "dlq" && e.Kind == "nack":
 			dlqNacked[recKey{strings.SplitN(e.Arg, "|", 2)[0], e.Idx}] = true
+			dlqOpenRun[recKey{strings.SplitN(e.Arg, "|", 2)[0], e.Idx}] = false
 		case isDest(e.Comp) && e.Kind == "ack":
 			k := recKey{strings.SplitN(e.Arg, "|", 2)[0], e.Idx}
 			destOK[e.Comp][k] = true
@@ -213,6 +237,15 @@ func checkFlow(p flowParams, x *verifkit.Exec) []verifkit.Violation {
 			nackedInEpoch[k] = true
 		case e.Comp == "proc" && e.Kind == "filter":
 			filtered[recKey{e.Arg, e.Idx}] = true
+		case e.Comp == "ctl" && e.Kind == "call" && e.Arg == "force":
+			for c, n := range opens {
+				if n > 0 && teardowns[c] >= n {
+					runEndedBeforeForce = true // a connector of the current run is already torn down: the run is ending on its own
+				}
+			}
+			if len(statuses) > 0 {
+				statusAtForce = statuses[len(statuses)-1]
+			}
 		case e.Comp == "ctl" && e.Kind == "force.ret":
 			forceRet = e.Seq
 		case e.Comp == "ctl" && e.Kind == "stopwait.ret":
@@ -226,7 +259,6 @@ func checkFlow(p flowParams, x *verifkit.Exec) []verifkit.Violation {
 			a.checkDrained("stop-and-wait returned nil", e.Seq, epoch, emitted, acked, destRecv, destDone, dlqRecvRun, dlqOK, srcAckSeq, teardownSeq, lastPos, lastPosSeen, opens, teardowns)
 		}
 	}
-	a.healthy = p.healthy()
 	final := ""
 	if n := len(a.evs); n > 0 && a.evs[n-1].Comp == "end" {
 		final = strings.SplitN(a.evs[n-1].Arg, "|", 2)[0]
@@ -271,7 +303,14 @@ func checkFlow(p flowParams, x *verifkit.Exec) []verifkit.Violation {
 				waited = true
 			}
 			if e.Seq > forceRet && isSource(e.Comp) && e.Kind == "open" && !p.Restart {
-				a.bad("C12/restart-after-force-stop", "the pipeline was restarted automatically after a force stop (source %s opened again, event #%d)", e.Comp, e.Seq)
+				key := "C12/restart-after-force-stop"
+				if statusAtForce == "Recovering" || runEndedBeforeForce {
+					// the force stop was accepted after the run had already failed with a transient error (the cleanup
+					// goroutine / recovery back-off was pending): it does not cancel the pending recovery
+					key = "C12/force-stop-does-not-cancel-pending-recovery/" + p.Engine
+				}
+				a.bad(key, "the pipeline was restarted automatically after a force stop that returned nil (status when it was issued: %s; source %s opened again, event #%d)", statusAtForce, e.Comp, e.Seq)
+				break
 			}
 		}
 		forceOK := false
@@ -280,7 +319,7 @@ func checkFlow(p flowParams, x *verifkit.Exec) []verifkit.Violation {
 				forceOK = true
 			}
 		}
-		if forceOK && !waited && !x.StepCapHit {
+		if forceOK && !waited && !x.StepCapHit && !runEndedBeforeForce {
 			a.bad("C12/run-does-not-terminate", "the run did not terminate after a force stop (WaitPipeline never returned)")
 		}
 		if forceOK && waited && !p.Restart && final != "" && final != "Degraded" {
@@ -288,7 +327,10 @@ func checkFlow(p flowParams, x *verifkit.Exec) []verifkit.Violation {
 		}
 	}
 	if x.Hang != "" {
-		a.bad("hang/goroutine-leak", "goroutines of the engine were still blocked after the execution was wound down: %s\n%s", x.Hang, x.LeakStacks)
+		// Goroutines still blocked after the wind-down are recorded, not reported: the properties speak of runs that
+		// do not end and calls that do not return (checked above through WaitPipeline / the control calls), not of
+		// helper goroutines that outlive a run.
+		x.Obs["leak"] = x.LeakStacks
 	}
 	x.Obs["statuses"] = statuses
 	return a.out
@@ -296,14 +338,21 @@ func checkFlow(p flowParams, x *verifkit.Exec) []verifkit.Violation {
 
 // healthy: no fault answer can be chosen in this scenario (the classification is static, from the menus).
 func (p flowParams) healthy() bool {
-	only := func(m []string) bool { return len(m) == 0 || (len(m) == 1 && m[0] == "ok") }
-	return only(p.AckMenu) && only(p.DLQMenu) && only(p.ReadMenu) && !p.Faults && len(p.Blocked) == 0
+	only := func(m []string) bool {
+		for _, a := range m {
+			if a != "ok" && a != "defer" {
+				return false
+			}
+		}
+		return true
+	}
+	return only(p.AckMenu) && only(p.DLQMenu) && only(p.ReadMenu) && !p.Faults && len(p.Blocked) == 0 && !p.GateDestOpen
 }
 
 func (a *analysis) checkDrained(when string, at int, epoch map[string]int, emitted, acked map[epKey][]int,
 	destRecv, destDone map[string]map[recKey]int, dlqRecvRun map[recKey]int, dlqOK map[recKey]bool, srcAckSeq map[recKey]int,
 	teardownSeq map[string]int, lastPos map[string]int, lastPosSeen map[string]bool, opens, teardowns map[string]int) {
-	if !a.p.healthy() {
+	if !a.healthy {
 		return
 	}
 	for _, d := range a.dests {
